@@ -736,6 +736,21 @@ def main():
                        'oracle': oname, 'witness': wit, 'search': summ, 'bounded': True}, open(path, 'w'), indent=1)
             violations.append((full, path, wit))
 
+    # ---- audit of the trusted specifications of std primitives (T2 / T3 / T6): independent of /repo, so a failure is never a
+    # violation of the property - it means an ASSUMPTION of the proofs is false of the library in use, and nothing is decided
+    binp, err = build_replay(a.repo)
+    if binp:
+        try:
+            w1, s1 = find_witness(binp, 'trusted_std', seed)
+        except subprocess.TimeoutExpired:
+            w1, s1 = None, {'cases': 0, 'failures': None}
+        bounded_runs.append({'oracle': 'trusted_std', 'what': 'audit of the assumed specifications of std primitives (T2, T3, T6) against the std in use: every char for the '
+                             'character-level axioms (complete), every string up to length 3-6 over an alphabet of all classes for trim / cmp / prefix / HashMap lookups by &str (bounded); does not depend on /repo',
+                             'cases': (s1 or {}).get('cases'), 'failures': (s1 or {}).get('failures'), 'skipped_outside_claim': 0, 'sample': (s1 or {}).get('sample'),
+                             'result': ('AUDIT FAILED: ' + str(w1.get('case')) + ' -- ' + str(w1.get('detail'))) if w1 else 'every audited assumption holds (not counted)'})
+        if w1:
+            undecided.append('a trusted specification of std does not hold on this toolchain (%s: %s): the proofs rest on a false assumption' % (w1.get('case'), w1.get('detail')))
+
     wall = time.time() - t0
 
     # ---- evidence
